@@ -66,6 +66,9 @@ claim("C04", "resolved dataflow from tuple positions / header fields to aggregat
 claim("C14", "dominating-guard (no-effect) rule + exact polynomial forms of the coefficient updates and conversion recurrences + dominance ordering of the energy measurements + a polynomial identity computed by the checker + parameter plumbing/taint of beta, over rustc MIR",
       "Sound static decision of the structural clauses of C14: the postfilter has no effect for beta <= 0 or order <= 2 (both filter families); b1 <- b1 - beta*alpha*b2, b_k <- (1+beta) b_k for k >= 2, b0 <- b0 + ln(e1/e2)/2 with e1/e2 measured before/after; with c_i = b_i + alpha b_{i+1} these give c1 unchanged and c_k scaled by 1+beta (identity checked algebraically); condition.beta is what both postfilters receive and reaches nothing else. NOT decided: energy preserved within 1 % (576-tap truncation).")
 
+claim("C07", "closed-form constants + per-branch store signatures with normalised guards and dominance order + SIBLINGS comparison of the two cloned branches + polynomial forms of the tap updates + event-sequence comparison of the two filter families, over rustc MIR",
+      "Sound static decision of the structural clauses of C07: F0 limits ln20/ln20000 and period = rate/exp(clamp(lf0)); the pitch accumulator (counter += 1; on counter >= T0: counter -= T0, pulse sqrt(T0); linear glide per sample; start/end semantics) in BOTH the ring-buffer and the never-tested no-LPF branch, which are compared with each other on every run; the mixed-excitation taps noise*(delta-h) + pulse*h; identical excitation event sequences for the MLSA and LSP families. NOT decided: noise statistics.")
+
 
 def main():
     props = [json.loads(l) for l in open(os.path.join(VERIF, "properties.jsonl"))]
